@@ -4,8 +4,8 @@ Manager methods that drive them.
 Everything that is *assumed* lives here and is listed in TRUSTED_COMMON:
   * the boundary objects (the L2 connection, its transport, application producers) and what they
     may do synchronously (re-entrancy),
-  * element-wise / first-index consequences of the list operations the code uses
-    (popleft, extend, append, rotate(-1), remove, list.index), spelled out for the solvers,
+  * (no longer assumed: the element-wise / first-index consequences of popleft, extend, append, rotate(-1), remove,
+    list.index and set(list) spelled out for the solvers are proved for all lengths by the `seq-lemmas` task),
   * PullToPush() returns a new object.
 """
 import z3
@@ -62,18 +62,27 @@ def L(z):
     return z3.Length(z)
 
 
+def ix_def(s, x):
+    """the DEFINITION of the first-index function: the sequence theory's own indexof of the unit sequence [x]
+    (what pyvc.models uses for list.index / deque.remove / `in`)"""
+    return z3.IndexOf(s, z3.Unit(x), 0)
+
+
 def ix(s, x):
     """first index of x in s, -1 if absent (list.index / 'in' / deque.remove all use it).
-    An uninterpreted function, defined by first_index_facts (the solvers' own indexof is not
-    usable together with nth under quantifiers)"""
+    A function symbol DEFINED as ix(s, x) := ix_def(s, x) = indexof(s, [x], 0).  The solvers' own indexof is not
+    usable together with nth under quantifiers, so the definition is only ever handed to them at ground instances
+    (seq_op_hook) and what the proofs use instead are first_index_facts(s) - which are proved for ix_def over an
+    arbitrary sequence s by the `seq-lemmas` task (fi.*), i.e. they are consequences of the definition."""
     key = ("fidx", str(s.sort()))
     if key not in _uf:
         _uf[key] = z3.Function("first_index_" + str(len(_uf)), s.sort(), s.sort().basis(), z3.IntSort())
     return _uf[key](s, x)
 
 
-def first_index_facts(s, es):
-    """definition of the first-index function, for the sequence term s"""
+def first_index_facts(s, es, ix=ix):
+    """characterisation of the first-index function, for the sequence term s (proved from its definition for every s:
+    seq_lemmas_task, obligations fi.*)"""
     y = z3.Const("y!fi", es)
     i = z3.Int("i!fi")
     return [z3.ForAll([y], z3.And(ix(s, y) >= -1, ix(s, y) < L(s), z3.Implies(ix(s, y) >= 0, s[ix(s, y)] == y))),
@@ -89,7 +98,8 @@ def op_facts(meth, old, new, x=None, t=None, opaque=True):
     """element-wise / first-index consequences of new = old.<meth>(...), as a list of (condition, fact):
     `fact` holds whenever `condition` (None, or 'the elements of old are pairwise distinct') does.
     Pure facts of the theory of finite sequences; the sequence solvers do not derive them under
-    quantifiers, so they are stated.  Validated against CPython lists by the `list-op-facts` task."""
+    quantifiers, so they are stated - each one proved for arbitrary `old` by the `seq-lemmas` task (seq_lemmas) from the
+    defining term of the operation (op_def), and validated against CPython lists by the `list-op-facts` task."""
     j = z3.Int("j!op")
     es = new.sort().basis()
     y = z3.Const("y!op", es)
@@ -129,14 +139,26 @@ def op_facts(meth, old, new, x=None, t=None, opaque=True):
     return out
 
 
+HOOK_STATS = {"stated": [], "skipped": []}      # debugging aid (tools): which operations got their facts
+
+
+def use_proved(it, f):
+    """hand the solvers an INSTANCE of a lemma that the `seq-lemmas` task proves for arbitrary sequences (or of the
+    definition of ix).  The only place in this module where list facts enter a path condition."""
+    it.ctx.assume(f)
+
+
 def seq_op_hook(it, s, meth, old, args):
-    """called by the engine around every list/deque operation on a symbolic sequence (see op_facts)"""
+    """called by the engine around every list/deque operation on a symbolic sequence: states the facts of op_facts, each
+    an instance of a seq-lemmas obligation (op.<meth>[..].k, proved from the defining term op_def(meth, old, ..)).  They
+    are stated only when the term the engine built IS that defining term (checked structurally) and the operation did
+    not raise on this path."""
     opaque = s.elem.kind == "opaque"
     if meth.startswith("pre:"):
         if meth in ("pre:remove", "pre:index") and opaque:
-            # the engine decides ValueError with the solver's own indexof: the same first index
+            # the engine decides ValueError with the solver's own indexof: ix is defined as exactly that
             x = to_z3(it.force(args[0]), s.elem)
-            it.ctx.assume(z3.IndexOf(old, z3.Unit(x), 0) == ix(old, x))
+            use_proved(it, ix_def(old, x) == ix(old, x))
         return
     if meth == "pop" and args and it.concrete(it.force(args[0])) == 0:
         meth = "popleft"
@@ -145,15 +167,25 @@ def seq_op_hook(it, s, meth, old, args):
         x = to_z3(it.force(args[0]), s.elem)
     if meth == "extend":
         t = to_z3(it.force(args[0]), T("seq", [s.elem]))
+    raises, new = op_def(meth, old, x, t)
+    if new is None or not new.eq(s.z):
+        HOOK_STATS["skipped"].append(meth)
+        return          # not the operation the lemmas are about: nothing is stated
+    HOOK_STATS["stated"].append(meth)
+    if raises is not None:
+        # the lemmas have `not raises` as hypothesis: on this path the engine branched on that very condition
+        lit = z3.simplify(z3.Not(z3.simplify(raises)))
+        if not any(lit.eq(p) or lit.eq(z3.simplify(p)) for p in it.ctx.pc):
+            it.ctx.prove(z3.Not(raises), f"seq-op.{meth}.did-not-raise", {"kind": "lemma"})
     if meth == "remove" and opaque:
-        it.ctx.assume(ix(old, x) == z3.IndexOf(old, z3.Unit(x), 0))
+        use_proved(it, ix(old, x) == ix_def(old, x))
     for cond, f in op_facts(meth, old, s.z, x, t, opaque):
         if cond == "distinct":
             d = z3.simplify(distinct_z(old))
             # when distinctness is literally one of the path's hypotheses the fact itself is added
             # (available without quantifier reasoning), otherwise the implication
             f = f if any(d.eq(p) for p in it.ctx.pc) else z3.Implies(distinct_z(old), f)
-        it.ctx.assume(f)
+        use_proved(it, f)
 
 
 # ------------------------------------------------------------------ spec functions
@@ -244,7 +276,7 @@ def install_spec(reg):
     # ---- producers
     def _emit_fi(it, s):
         for f in first_index_facts(s.z, s.z.sort().basis()):
-            it.ctx.assume(f)
+            use_proved(it, f)          # instances of seq-lemmas fi.* at the term s
 
     def partition(it, allp, P, U):
         """_check_invariants, pointwise: the two sets are disjoint and their union is set(deque)"""
@@ -578,7 +610,7 @@ def isinstance_producer(it, v, name):
 
 
 def set_of_seq(it, args, kw):
-    """set(list): x in set(s)  <=>  s.index(x) exists"""
+    """set(list): x in set(s)  <=>  s.index(x) exists (seq-lemmas set.*: <=> some s[i] == x <=> contains(s, [x]))"""
     from pyvc.models import b_set
     if args:
         v = it.force(args[0])
@@ -616,8 +648,12 @@ def make_reg(contracts, exclude=()):
 
 TRUSTED_COMMON = [
     "z3/cvc5", "pyvc semantics of the Python subset",
-    "finite-sequence facts spelled out for the solvers (props/dilq.py seq_op_hook, first_index_facts): element-wise and "
-    "first-index consequences of deque.popleft/extend/append/rotate(-1)/remove; set(list) membership == first index exists",
+    "definition (not an assumption): first index ix(s, x) := indexof(s, [x], 0) of the solvers' sequence theory - the term "
+    "pyvc.models uses for list.index / deque.remove; the list facts handed to the solvers (props/dilq.py seq_op_hook, "
+    "first_index_facts, set_of_seq) are instances of the `seq-lemmas` obligations, proved for sequences of any length from "
+    "the defining terms of popleft/extend/clear/append/rotate(-1)/remove (op_def; checked to be the very term "
+    "pyvc.models._m_seq built) - trusted there: the solvers' semantics of seq.extract/++/indexof/contains/nth, and that "
+    "pyvc.models' terms mean what deque/list do (part of 'pyvc semantics'; cross-checked on all lists up to length 3 by list-op-facts)",
     "PullToPush(...) returns a new object, distinct from every registered producer",
 ]
 
@@ -908,12 +944,212 @@ def inbound_contracts():
     return cs
 
 
+# ------------------------------------------------------------------ the stated list facts, proved for all lengths
+def op_def(meth, old, x=None, t=None):
+    """defining semantics of old.<meth>(...), term for term what pyvc.models._m_seq builds:
+    (condition under which the operation raises instead, or None; the new sequence)"""
+    n = z3.Length(old)
+    if meth == "popleft":
+        return n == 0, z3.Extract(old, 1, z3.Length(old) - 1)            # old[1:]
+    if meth == "extend":
+        return None, z3.Concat(old, t)                                   # old + t
+    if meth == "clear":
+        return None, z3.Empty(old.sort())
+    if meth == "append":
+        return None, z3.Concat(old, z3.Unit(x))                          # old + [x]
+    if meth == "rotate":                                                 # rotate(-1): old[1:] + old[:1]
+        return None, z3.If(n == 0, old, z3.Concat(z3.Extract(old, 1, n - 1), z3.Extract(old, 0, 1)))
+    if meth == "remove":                                                 # old[:k] + old[k+1:], k = first index of x
+        idx = z3.IndexOf(old, z3.Unit(x), 0)
+        return idx < 0, z3.Concat(z3.Extract(old, 0, idx), z3.Extract(old, idx + 1, n - idx - 1))
+    return None, None
+
+
+def _flatten(f, es, tag):
+    """a fact as a list of (extra hypotheses, goal, skolem constants): conjunctions split, antecedents moved to the
+    hypotheses, a universally quantified element variable replaced by a fresh constant (sound and complete for a goal)"""
+    if z3.is_and(f):
+        return [r for c in f.children() for r in _flatten(c, es, tag)]
+    if z3.is_implies(f):
+        return [([f.arg(0)] + hs, g, sks) for hs, g, sks in _flatten(f.arg(1), es, tag)]
+    if z3.is_quantifier(f) and f.is_forall() and f.num_vars() == 1 and f.var_sort(0) == es:
+        y0 = z3.Const(f"y0!{tag}", es)
+        return [(hs, g, [y0] + sks) for hs, g, sks in _flatten(z3.substitute_vars(f.body(), y0), es, tag)]
+    return [([], f, [])]
+
+
+def _mentions_ix(e, of):
+    """does e talk about the first index of something in the sequence `of`"""
+    stack, seen = [e], set()
+    while stack:
+        t = stack.pop()
+        if t.get_id() in seen:
+            continue
+        seen.add(t.get_id())
+        if z3.is_app(t) and t.decl().name().startswith("first_index_") and t.arg(0).eq(of):
+            return True
+        stack.extend(t.children())
+    return False
+
+
+def _ground_instances(hyps, old, new, x, sks):
+    """ground instances of the universally quantified hypotheses (one bound variable) at the terms a proof about the
+    first index of the skolem element y0 talks about: y0, the element operated on, the head; the first indices of y0
+    in old and new and their neighbours; the position operated on.  Computed by substitution into the hypotheses -
+    nothing is stated by hand.  (solve.instantiate_hyps only looks at index terms that occur in the goal.)"""
+    if not sks:
+        return []
+    elems = list(sks) + ([x] if x is not None else []) + [old[0]]
+    ints = []
+    for y in sks:
+        for t in (ix(old, y), ix(new, y)):
+            ints += [t, t - 1, t + 1]
+    ints += [L(old) - 1, L(old), z3.IntVal(0)]
+    if x is not None:
+        ints += [ix(old, x), ix(old, x) - 1, ix(old, x) + 1]
+    out = []
+    for h in hyps:
+        if z3.is_quantifier(h) and h.is_forall() and h.num_vars() == 1:
+            for t in (elems if h.var_sort(0) == old.sort().basis() else ints if h.var_sort(0) == IntS else []):
+                out.append(z3.substitute_vars(h.body(), t))
+    return out
+
+
+FACT_NAMES = {      # obligation names of the facts, in the order op_facts (for append: seq_lemmas) lists them
+    "popleft": ["length", "elements-move-down-by-one"],
+    "extend": ["length", "old-part-kept", "new-part-follows"],
+    "clear": ["length"],
+    "append": ["length", "last-is-the-new-element", "old-part-kept", "first-index-of-every-element"],
+    "rotate": ["length", "head-to-back.others-move-down.first-indices-move-down", "first-index-of-head-when-distinct"],
+    "remove": ["length", "before-the-removed-position-kept", "after-it-move-down-by-one", "first-indices-of-the-others",
+               "removed-element-absent-when-distinct"],
+}
+LEMMA_OPS = ("popleft", "extend", "clear", "append", "rotate", "remove")
+
+
+def seq_lemmas(wrong=None):
+    """the proof obligations behind everything seq_op_hook / first_index_facts / set_of_seq hand to the solvers, over
+    ARBITRARY sequences (any length): [(name, hypotheses, goal, what it says)].
+      fi.*   first_index_facts hold for the defining term ix_def(s, y) = indexof(s, [y], 0), for every s
+      set.*  x in set(s)  <=>  some s[i] == x  <=>  contains(s, [x])  <=>  first index exists
+      op.*   every fact of op_facts(meth, old, new, ..) where new is the defining term op_def(meth, old, ..) of the
+             operation and the operation does not raise; hypotheses: the characterisation fi.* of ix on old and new
+             (proved above for every sequence), ix(old, x) == ix_def(old, x) for remove (the definition, at the one
+             instance the engine's term mentions), and the facts of the same operation proved before it.
+    `wrong`: a function that falsifies facts (self-test of the obligations, tools only)"""
+    out = []
+    E = {"P": PS, "R": sort_of(SEQREC)}
+    for tag, es in E.items():
+        S = z3.SeqSort(es)
+        s = z3.Const(f"s!{tag}", S)
+        x = z3.Const(f"x!{tag}", es)
+        if tag == "P":
+            f1, f2 = first_index_facts(s, es, ix=ix_def)
+            out.append(("fi.in-range-and-hits", [], f1, "-1 <= indexof(s,[y]) < len(s), and s[indexof(s,[y])] == y when >= 0"))
+            out.append(("fi.first", [], f2, "0 <= indexof(s,[s[i]]) <= i for every position i"))
+            i = z3.Int("i!sm")
+            fi = first_index_facts(s, es)
+            out.append(("set.member-iff-contains", [], z3.Contains(s, z3.Unit(x)) == (ix_def(s, x) >= 0),
+                        "contains(s,[x]) <=> indexof(s,[x]) >= 0"))
+            out.append(("set.member-iff-some-element", fi,
+                        z3.Exists([i], z3.And(0 <= i, i < L(s), s[i] == x)) == (ix(s, x) >= 0),
+                        "x in set(s), i.e. some s[i] == x  <=>  first index exists"))
+        for meth in LEMMA_OPS:
+            opaque = tag == "P"
+            if not opaque and meth in ("rotate", "remove"):
+                continue          # only used on the producer rotation
+            t = z3.Const(f"t!{tag}", S)
+            raises, new = op_def(meth, s, x, t)
+            hyps = []
+            if raises is not None:
+                hyps.append(z3.Not(raises))
+            if opaque:
+                hyps += first_index_facts(s, es)
+                if meth == "remove":
+                    hyps.append(ix(s, x) == ix_def(s, x))
+            facts = op_facts(meth, s, new, x, t, opaque)
+            if meth == "append":
+                # what pyvc.models.seq_append states about s + [x] (same engine, same family of facts)
+                j = z3.Int("j!app")
+                facts = [(None, L(new) == L(s) + 1), (None, new[L(s)] == x),
+                         (None, z3.ForAll([j], z3.Implies(z3.And(0 <= j, j < L(s)), new[j] == s[j])))] + facts
+            if wrong is not None:
+                facts = wrong(meth, tag, facts, s, new, x, t)
+            # the characterisation of ix on `new` is itself one of the facts (last): as a hypothesis it is an instance
+            # of fi.* (proved for every sequence), so the facts about ix(new, .) may use it
+            fi_new = first_index_facts(new, es) if opaque and meth in ("append", "rotate", "remove") else []
+            # two layers.  (A) facts about lengths and elements: proved about the defining term itself (sequence theory).
+            # (B) facts about first indices: proved for ANY sequence N that has the (A) facts and the characterisation
+            # fi.* - the defining term is replaced by a constant N in hypotheses and goal alike, which is the more
+            # general statement (its instance at N := the defining term is the fact), and keeps extract/++ out of
+            # the first-index arguments (the solvers are erratic on the mixture under load).
+            N = z3.Const(f"new!{meth}{tag}", S)
+            absn = lambda e: z3.substitute(e, (new, N))     # noqa: E731
+            proved = []
+            for k, (cond, f) in enumerate(facts):
+                h = list(hyps) + list(fi_new) + proved
+                if any(f.eq(g) for g in fi_new):
+                    continue      # instance of fi.* at the term `new`
+                if cond == "distinct":
+                    h.append(distinct_z(s))
+                subs, done = [], []
+                for extra, g, sks in _flatten(f, es, f"{meth}{tag}{k}"):
+                    hh = h + done + extra
+                    if opaque and _mentions_ix(g, new):
+                        hh = [absn(e) for e in hh]
+                        subs.append((hh + _ground_instances(hh, s, N, x, sks), absn(g)))
+                    else:
+                        subs.append((hh + _ground_instances(hh, s, new, x, sks), g))
+                    if not sks:
+                        done.append(z3.Implies(z3.And(extra), g) if extra else g)     # conjuncts proved before: usable
+                nm = FACT_NAMES[meth][k] if wrong is None and k < len(FACT_NAMES[meth]) else str(k)
+                out.append((f"op.{meth}[{tag}].{nm}", subs, None, str(f).replace("\n", " ")[:160]))
+                if cond is None:
+                    proved.append(f)
+    return out
+
+
+def seq_lemmas_task(tier, seed, wrong=None):
+    """discharges seq_lemmas() with the ordinary pipeline (goal skolemisation, ground instances, z3 schedule, cvc5)"""
+    import time
+    from pyvc.runner import ob
+    from pyvc.ctx import VC
+    from pyvc import solve
+    t0 = time.time()
+    timeout = 10000 if tier == "quick" else 60000
+    obs = []
+    rank = {"discharged": 0, "unknown": 1, "disagree": 2, "failed": 3}
+    for name, hyps, goal, src in seq_lemmas(wrong):
+        full = "props/dilq.py:seq-lemmas." + name
+        subs = hyps if goal is None else [(hyps, goal)]
+        status, backends, secs, hashes, detail, trivial = "discharged", [], 0.0, [], None, True
+        for hh, g in subs:
+            v = solve.solve_vc(VC(full, list(hh), g, {"kind": "lemma", "src": src}), timeout, use_cvc5=True,
+                               cross=(tier == "thorough"))
+            st = v.status
+            if st == "failed" and "candidate" in (v.backend or ""):
+                st = "unknown"      # a model of the ground part only: no refutation of a lemma (nothing to replay natively)
+            secs += v.secs
+            hashes.append(v.smt_hash or "")
+            trivial = trivial and v.trivial
+            backends += [b for b in (v.backend or "").split(",") if b not in backends]
+            if rank[st] > rank[status]:
+                status = st
+                detail = {"backend": v.backend, "goal": str(g)[:400],
+                          "model": str(v.model)[:1500] if v.model is not None else None}
+        import hashlib
+        obs.append(ob(full, status, ",".join(backends), secs, trivial, None, {"kind": "lemma", "src": src},
+                      hashlib.sha256("".join(hashes).encode()).hexdigest()[:16], detail if status != "discharged" else None))
+    return {"obligations": obs, "info": {"target": "props/dilq.py:<list facts for all lengths>", "sha": None, "lines": None,
+                                         "paths": len(obs), "wall": round(time.time() - t0, 2)}}
+
+
 # ------------------------------------------------------------------ validation of the stated list facts
 def list_facts_task(tier, seed):
     """every fact of op_facts / first_index_facts, checked against CPython's list semantics on all lists of
     length <= 3 over three values (and one foreign value): the first-index function is given its concrete
-    table, the fact must then be valid.  Not a proof of the facts for all lengths (they are elementary and
-    listed as trusted); it guards the formulas against slips."""
+    table, the fact must then be valid.  Not the proof of the facts (that is seq_lemmas_task, for all lengths, from the
+    solver-side defining terms); this ties the same formulas to CPython's behaviour on small lists."""
     import itertools
     import time
     from pyvc.runner import ob
